@@ -39,12 +39,13 @@ CLAIMS = {
          "assumes (trusted contract of loadFragment) that a read returns the content belonging to the mtime a Stat reports at that moment, and equal non-zero mtime => equal content (the cache's documented assumption); Load/include paths that bypass the cache are not related to it by contract."),
  "C16": ("In evaluate, whenever control reaches the v-pre/v-for/v-if dispatch for an element carrying v-once, its id is already recorded in the per-render seen set (assert-at clause); NewVueContext creates a fresh empty seen set; WithTemplate shares it along the include chain.",
          "id assignment (distinct non-empty ids for every v-once element at every entry point) is not decided; skipping of already-seen elements is not stated as a clause."),
+ "C19": ("Formatter output functions: escapeText equals a recursive spec for all strings (outside complete mustaches & < > become references, mustaches are copied byte for byte); renderOpenTag writes every attribute value between double quotes with its own double quotes as &quot; (exact recursive spec over the attribute list).",
+         "FormatAttr (regexp) is a trusted contract; idempotence and parse-equivalence of whole documents are relations through the external HTML5 parser and are not decided; front-matter/doctype/raw-text clauses not under contract."),
  "C17": ("Stack as a scope stack: Lookup = innermost binding else root field (recursive spec lookupIdx, loop invariant), Set touches only the top scope, Push/Pop restore the scope list, Pop keeps >= 1 scope, EnvMap agrees with Lookup, Copy is fresh and equal; object invariant len(pooled)==len(stack).",
          "path resolution through reflection (Resolve/resolveStep) is outside the subset: not claimed here; ResolveValue/PopulateStructFields are trusted stubs."),
 }
 NA = {
  "C09": "lock/ownership discipline obligations not built yet (no schedule exploration in this technique)",
- "C19": "formatter leaf contracts not built yet",
  "C20": "equivalence with an external reference renderer (goldmark) over all documents: no contract on a repository function can express the oracle (DESIGN.md §8)",
 }
 
